@@ -95,6 +95,13 @@ static ABT_thread sp_pop(ABT_pool pool, ABT_pool_context c)
     for (int i = 0; i < NES; i++) if ((ABTI_pool *)pool == ULTP[i]->thread.p_pool && sp_in[i]) { sp_in[i] = 0; ULTP[i]->thread.is_in_pool.val = 0; return (ABT_thread)ULTP[i]; }
     return ABT_THREAD_NULL;
 }
+static int sp_remove(ABT_pool pool, ABT_unit unit)
+{
+    int i = ult_index_of_unit(unit);
+    if (i < 0 || !sp_in[i] || (ABTI_pool *)pool != ULTP[i]->thread.p_pool) return ABT_ERR_POOL;
+    sp_in[i] = 0; ULTP[i]->thread.is_in_pool.val = 0; return ABT_SUCCESS;
+}
+static ABT_bool sp_unit_is_in_pool(ABT_unit unit) { int i = ult_index_of_unit(unit); return (i >= 0 && sp_in[i]) ? ABT_TRUE : ABT_FALSE; }
 static ABT_bool sp_is_empty(ABT_pool pool) { for (int i = 0; i < NES; i++) if ((ABTI_pool *)pool == ULTP[i]->thread.p_pool && sp_in[i]) return ABT_FALSE; return ABT_TRUE; }
 
 /* ---------------- callbacks run by the switch model ------------------------------------------------------------ */
@@ -106,6 +113,15 @@ static void vr_run_cb(void (*f)(void *), void *a)
     else if (f == ABTI_ythread_callback_yield_loop) ABTI_ythread_callback_yield_loop(a);
     else if (f == ABTI_ythread_callback_yield_user_yield) ABTI_ythread_callback_yield_user_yield(a);
     else if (f == ABTI_ythread_callback_exit) ABTI_ythread_callback_exit(a);
+    else if (f == ABTI_ythread_callback_yield_user_yield_to) ABTI_ythread_callback_yield_user_yield_to(a);
+    else if (f == ABTI_ythread_callback_yield_create_to) ABTI_ythread_callback_yield_create_to(a);
+    else if (f == ABTI_ythread_callback_yield_revive_to) ABTI_ythread_callback_yield_revive_to(a);
+    else if (f == ABTI_ythread_callback_thread_yield_to) ABTI_ythread_callback_thread_yield_to(a);
+    else if (f == ABTI_ythread_callback_resume_yield_to) ABTI_ythread_callback_resume_yield_to(a);
+    else if (f == ABTI_ythread_callback_resume_suspend_to) ABTI_ythread_callback_resume_suspend_to(a);
+    else if (f == ABTI_ythread_callback_resume_exit_to) ABTI_ythread_callback_resume_exit_to(a);
+    else if (f == ABTI_ythread_callback_suspend_replace_sched) ABTI_ythread_callback_suspend_replace_sched(a);
+    else if (f == ABTI_ythread_callback_orphan) ABTI_ythread_callback_orphan(a);
     else __CPROVER_assert(0, "switch model: unknown post-switch callback");
 }
 static int ult_index_of_ctx(fcontext_t *c) { for (int i = 0; i < NES; i++) if (c == &ULTP[i]->ctx.ctx) return i; return -1; }
@@ -184,6 +200,7 @@ static void world_init(void)
         ABTI_pool *p = PLP[e];
         p->access = ABT_POOL_ACCESS_MPMC; p->is_builtin = ABT_TRUE; p->num_blocked.val = 0; p->num_scheds.val = 1;
         p->required_def.p_push = sp_push; p->required_def.p_pop = sp_pop; p->required_def.p_is_empty = sp_is_empty;
+        p->deprecated_def.p_remove = sp_remove; p->deprecated_def.u_is_in_pool = sp_unit_is_in_pool;
         world_init_thread(SCHEDP[e], 0, 0, ESP[e], ABTI_THREAD_TYPE_MAIN_SCHED);
         world_init_thread(ULTP[e], p, SCHEDP[e], ESP[e], 0);
         ESP[e]->p_thread = &ULTP[e]->thread; ESP[e]->rank = e; ESP[e]->type = e ? ABTI_XSTREAM_TYPE_SECONDARY : ABTI_XSTREAM_TYPE_PRIMARY;
